@@ -270,12 +270,85 @@ func maxAbs(xs ...float64) float64 {
 	return m
 }
 
+// reinit calls InitModel again on an existing model value (the reuse pattern of the package's own TestK2PPij)
+func reinit(m models.Model, name string, p []float64) error {
+	switch mm := m.(type) {
+	case *dna.JCModel:
+		return mm.InitModel()
+	case *dna.K2PModel:
+		mm.InitModel(p[0])
+		return nil
+	case *dna.F81Model:
+		return mm.InitModel(p[0], p[1], p[2], p[3])
+	case *dna.F84Model:
+		mm.InitModel(p[0], p[1], p[2], p[3], p[4])
+		return nil
+	case *dna.TN93Model:
+		return mm.InitModel(p[0], p[1], p[2], p[3], p[4], p[5])
+	case *dna.GTRModel:
+		return mm.InitModel(p[0], p[1], p[2], p[3], p[4], p[5], p[6], p[7], p[8], p[9])
+	case *protein.ProtModel:
+		var user []float64
+		if len(p) == 21 {
+			user = append([]float64{}, p[1:]...)
+		}
+		return mm.InitModel(user)
+	}
+	panic("harness: reinit of an unknown model type")
+}
+
+func pmatrixLive(pij *models.Pij, n int, x float64) ([]float64, error) {
+	if err := pij.SetLength(x); err != nil {
+		return nil, err
+	}
+	out := make([]float64, 0, n*n)
+	for i := 0; i < n; i++ {
+		for j := 0; j < n; j++ {
+			out = append(out, pij.Pij(i, j))
+		}
+	}
+	return out, nil
+}
+
 func init() {
-	register("c18", func(a []string) string {
-		name, p, s, t := a[0], floats(a[1]), atof(a[2]), atof(a[3])
-		m, pi, q, stage := mkModel(name, p)
+	register("c18", func(a []string) string { return opC18(a[0], nil, floats(a[1]), atof(a[2]), atof(a[3])) })
+	// c18re <model> <params0> <params> <s> <t>: the model value and a Pij are first used with params0, the model is then
+	// initialised again with params and the SAME Pij object answers; everything reported is about params
+	register("c18re", func(a []string) string { return opC18(a[0], floats(a[1]), floats(a[2]), atof(a[3]), atof(a[4])) })
+}
+
+func opC18(name string, p0, p []float64, s, t float64) string {
+	{
+		var m models.Model
+		var pi, q []float64
+		var stage string
+		var live *models.Pij
+		if p0 == nil {
+			m, pi, q, stage = mkModel(name, p)
+		} else {
+			if name == "prot" && int(p0[0]) != int(p[0]) {
+				panic("harness: c18re keeps the protein model index")
+			}
+			m, _, _, stage = mkModel(name, p0)
+			if stage == "" {
+				var err error
+				if live, err = models.NewPij(m, 0.37); err != nil {
+					return "err pij0"
+				}
+				if err = reinit(m, name, p); err != nil {
+					return "err init"
+				}
+				_, pi, q, stage = mkModel(name, p) // a fresh twin: frequencies and the textbook matrix of params
+			}
+		}
 		if stage != "" {
 			return "err " + stage
+		}
+		pm := func(mm models.Model, x float64) ([]float64, error) {
+			if live != nil && mm == m {
+				return pmatrixLive(live, m.NState(), x)
+			}
+			return pmatrix(mm, x)
 		}
 		n := m.NState()
 		val, left, right, err := m.Eigens()
@@ -283,9 +356,9 @@ func init() {
 			return "err eigens"
 		}
 		L, R := denseRowMajor(left, n), denseRowMajor(right, n)
-		ps, e1 := pmatrix(m, s)
-		pt, e2 := pmatrix(m, t)
-		pst, e3 := pmatrix(m, s+t)
+		ps, e1 := pm(m, s)
+		pt, e2 := pm(m, t)
+		pst, e3 := pm(m, s+t)
 		if e1 != nil || e2 != nil || e3 != nil {
 			return "err pij"
 		}
@@ -350,5 +423,5 @@ func init() {
 		}
 		sb.WriteString(";res=" + encFloats([]float64{resQ, resLR, rowdev, semi, db, minE, maxE}))
 		return sb.String()
-	})
+	}
 }
